@@ -781,10 +781,10 @@ def check_lexer(ctx, lib):
     ctx.attempt("check_scanners", check_scanners, ctx, lib)
 
 
-def closure_true_set(lib, cb):
+def closure_true_set(lib, cb, char_local=2, start=0):
     """Set of chars for which a `|c| -> bool` closure returns true (CharFlow over its body)."""
-    # param 2 is the char
-    cf = CharFlow(cb, 2, 0, Origins(cb, lib))
+    # param 2 is the char (or char_local holds it from block `start` on: `|&(_, c)|`)
+    cf = CharFlow(cb, char_local, start, Origins(cb, lib))
     true_set = ISet.empty()
     false_set = ISet.empty()
     for bb, i, s in cb.stmts():
@@ -793,6 +793,14 @@ def closure_true_set(lib, cb):
                 true_set = true_set.union(cf.at(bb))
             elif s["rv"]["op"].get("int") == 0:
                 false_set = false_set.union(cf.at(bb))
+        elif s["k"] == "assign" and s["place"]["l"] == 0 and not s["place"]["p"] and s["rv"]["k"] == "binop":
+            # the last disjunct of `c == 'a' || c == 'b'` is the answer itself
+            cs = cf._cmp_set(s["rv"])
+            if cs is None:
+                return None
+            here = cf.at(bb)
+            true_set = true_set.union(here.inter(cs))
+            false_set = false_set.union(here.inter(cs.compl()))
     # a std character-class test as (part of) the answer: `c.is_digit(10)`, `c == '_' || c.is_ascii_alphanumeric()`
     DIG = ISet([(0x30, 0x39)])
     ALPHA = ISet([(0x41, 0x5a), (0x61, 0x7a)])
@@ -804,7 +812,7 @@ def closure_true_set(lib, cb):
             cls = CLASSES.get(name)
             if name == "is_digit" and len(t["args"]) > 1 and t["args"][1].get("int") == 10:
                 cls = DIG
-            if cls is None or Origins(cb, lib).of_operand(t["args"][0]) != {("param", 2)}:
+            if cls is None or (char_local == 2 and Origins(cb, lib).of_operand(t["args"][0]) != {("param", 2)}):
                 return None
             here = cf.at(bb)
             true_set = true_set.union(here.inter(cls))
@@ -1055,6 +1063,10 @@ def alt_roles(lib):
     return None
 
 
+def _small(iset, limit=4):
+    return sum(hi - lo + 1 for lo, hi in getattr(iset, "iv", [])) <= limit
+
+
 def next_if_table(lib, b):
     """For a scanner written with `self.iter.next_if(|&(_, c)| c == K)`: {scenario: result terms} where a scenario is one of
     the keys K (a character, or a parameter of b) meaning "the next character equals K", or "<other>" (a different character
@@ -1075,11 +1087,19 @@ def next_if_table(lib, b):
             if cb is None:
                 return None
             r = Origins(cb, lib).of_local(0)
-            if len(r) != 1:
-                return None
-            e = next(iter(r))
-            if not (e[0] == "bin" and e[1] == "Eq" and ("field", ("param", 2), "1") in (e[2], e[3])):
-                return None
+            e = next(iter(r)) if len(r) == 1 else None
+            if e is None or not (e[0] == "bin" and e[1] == "Eq" and ("field", ("param", 2), "1") in (e[2], e[3])):
+                # a predicate accepting a few characters (`matches!(c, ']' | '?')`, `c == ']' || c == '?'`): the set it accepts
+                cl = [(bb2, st["place"]["l"]) for bb2, i2, st in cb.stmts() if st["k"] == "assign" and not st["place"]["p"] and
+                      cb.local_ty(st["place"]["l"]) == "char" and st["rv"]["k"] == "use" and st["rv"]["op"].get("l") == 2 and
+                      [x for x in st["rv"]["op"].get("p", []) if x != "deref"] and
+                      all((x == "deref") or (isinstance(x, dict) and x.get("f") == 1) for x in st["rv"]["op"].get("p", []))]
+                ts = closure_true_set(lib, cb, cl[0][1], cl[0][0]) if len(cl) == 1 else None
+                chars_ = [chr(v) for lo, hi in (ts.iv if ts is not None else []) for v in range(lo, hi + 1)] if ts is not None and _small(ts) else None
+                if not chars_:
+                    return None
+                sites[bb] = frozenset(chars_)
+                continue
             k = e[3] if e[2] == ("field", ("param", 2), "1") else e[2]
             if k[0] == "const" and isinstance(k[1], int):
                 key = chr(k[1])
@@ -1095,14 +1115,26 @@ def next_if_table(lib, b):
     if not sites:
         return None
     out = {}
-    for scen in list(dict.fromkeys(sites.values())) + ["<other>"]:
+    keys = []
+    for k in sites.values():
+        for kk in (sorted(k) if isinstance(k, frozenset) else [k]):
+            if kk not in keys:
+                keys.append(kk)
+    for scen in keys + ["<other>"]:
         def answer(t, scen=scen):
-            # t: the next_if call term; Some exactly when its key is the scenario's character
-            return t[0] == "call" and t[1].endswith("Peekable::<I>::next_if") and sites.get(t[3]) == scen
+            # t: the next_if call term; Some exactly when the scenario's character is (among) the one(s) it accepts
+            if not (t[0] == "call" and t[1].endswith("Peekable::<I>::next_if")):
+                return False
+            k = sites.get(t[3])
+            return scen in k if isinstance(k, frozenset) else k == scen
 
         def atom(t, scen=scen):
             if t[0] == "discr" and t[1][0] == "call" and t[1][1].endswith("Peekable::<I>::next_if"):
                 return "Some" if answer(t[1]) else "None"
+            # the character handed back by next_if is the scenario's
+            if t[0] == "field" and t[2] == "1" and isinstance(scen, str) and len(scen) == 1 and \
+                    term_mentions(t[1], lambda y: y[0] == "call" and y[1].endswith("Peekable::<I>::next_if") and answer(y)):
+                return ord(scen)
             return None
 
         def call(t, argvals, scen=scen):
